@@ -1,9 +1,11 @@
 PROPERTY = "C03"
 LEVEL = "proof"
-LEAN_MODULES = ["CifModel.Props.C03", "CifModel.Props.C03Extra", "CifModel.Lemmas.ParserTop", "CifModel.Lemmas.ParserQuiet", "CifModel.Lemmas.ParserConsistent", "CifModel.Lemmas.ParserRect", "CifModel.Lemmas.ParserStore", "CifModel.Lemmas.ParserDetProd", "CifModel.Lemmas.ParserDetLex", "CifModel.Lemmas.ParserDet", "CifModel.Props.ReviewC03"]
+LEAN_MODULES = ["CifModel.Props.C03", "CifModel.Props.C03Extra", "CifModel.Lemmas.ParserTop", "CifModel.Lemmas.ParserQuiet", "CifModel.Lemmas.ParserConsistent", "CifModel.Lemmas.ParserRect", "CifModel.Lemmas.ParserStore", "CifModel.Props.C03Store", "CifModel.Model.ParserTrace", "CifModel.Model.ParserStoreOps", "CifModel.Lemmas.ParserTrace", "CifModel.Lemmas.ParserStoreOps", "CifModel.Lemmas.ParserDetProd", "CifModel.Lemmas.ParserDetLex", "CifModel.Lemmas.ParserDet", "CifModel.Props.ReviewC03"]
 REQUIRED = ["CifModel.C03_total", "CifModel.C03_clamp", "CifModel.C03_report_site", "CifModel.C03_prefix_determinism", "CifModel.C03_result",
             "CifModel.C03_reported_partial", "CifModel.C03_reported", "CifModel.C03_reported_full", "CifModel.Model.Parser.parseInternal_die", "CifModel.C03_consistent_after", "CifModel.C03_consistent_after_fresh",
-            "CifModel.C03_consistent_iff", "CifModel.C03_consistent_container", "CifModel.C03_packets_rectangular", "CifModel.C03_rectangular_iff", "CifModel.C03_rectangular_container", "CifModel.Model.Parser.parse_okR", "CifModel.Model.Parser.packetsLoop_presR", "CifModel.Model.Parser.parse_ok", "CifModel.Model.Parser.updIn_ok",
+            "CifModel.C03_consistent_iff", "CifModel.C03_consistent_container", "CifModel.C03_packets_rectangular", "CifModel.C03_rectangular_iff", "CifModel.C03_rectangular_container", "CifModel.Model.Parser.parse_okR", "CifModel.Model.Parser.packetsLoop_presR",
+            "CifModel.C03_parser_trace", "CifModel.C03_store_ops_documented", "CifModel.C03_store_step_mkBlock", "CifModel.C03_parser_store_refines_partial",
+            "CifModel.Model.Parser.parseT_out", "CifModel.Model.Parser.parse_replay", "CifModel.Model.Parser.storeTrace_wf", "CifModel.Model.Parser.setValueC_spec", "CifModel.Model.Parser.addPkt_spec", "CifModel.Model.Parser.parse_ok", "CifModel.Model.Parser.updIn_ok",
             "CifModel.C03_die_is_first", "CifModel.C03_accept_all", "CifModel.C03_codes_nonzero",
             "CifModel.C03_fuel_suffices", "CifModel.C03_nofuel_only_from_callback", "CifModel.C03_callback_lines",
             "CifModel.C03_scanner_lines_monotone",
@@ -48,8 +50,26 @@ PARTIAL = [
     "in a scalar loop, AND (C03_packets_rectangular, Lemmas/ParserRect: the column bookkeeping of parse_loop_packets with dropped duplicate / "
     "invalid header names, the wrap of the column index and the CIF_PARTIAL_PACKET padding) every packet of every loop has exactly as many "
     "values as its loop has names — after every parse, also an aborted one, from every consistent (and rectangular) initial target.  "
-    "That the REAL store holds this content is C03_parser_store_refines (see below) composed with the store model; beyond that it is observed: "
-    "the executor walks, writes, modifies and destroys the real CIF after every parse under ASan/UBSan, and its dump is compared with the model's.",
+    "That the REAL store holds this content is observed: the executor walks, writes, modifies and destroys the real CIF after every parse "
+    "under ASan/UBSan, and its dump is compared with the model's.",
+    "parser model -> store model (Props/C03Store.lean): the real parser calls the store API; Model/ParserTrace.lean is the parser model with "
+    "every successful mutating call recorded (cif_create_block(_internal), cif_container_create_frame(_internal), cif_container_set_value, "
+    "cif_container_create_loop, cif_loop_add_packet, cif_container_prune).  PROVED for every parse (any policy, input, options, initial "
+    "target, also aborted): forgetting the trace gives Model.Parser.parse exactly and the target is the replay of the recorded calls "
+    "(C03_parser_trace); the effect of a recorded set_value / add_packet / create_block / create_frame is the DOCUMENTED function of "
+    "Spec/DataModel on consistent rectangular containers (C03_store_ops_documented — uses C03_packets_rectangular and uniqueness of names); "
+    "block creation composes with the store model's createBlock (C03_store_step_mkBlock, via C04_refines_create_block).  NOT PROVED: "
+    "C03_parser_store_refines_full (a def) — the recorded calls translated into a Store.Op history (Model/ParserStoreOps.storeOps) and run "
+    "through Store.step from a new CIF all return CIF_OK and end in a store whose abstraction Store.abs IS the parser model's CIF.  It is "
+    "EXECUTED by the model driver on every request of family parse with a fresh target (about 6 000 per quick run, every recovery path, "
+    "aborted parses; exact equality incl. enumeration orders; any failure is a model/implementation disagreement); lenient creations "
+    "(invalid codes accepted after the report, the anonymous block) are not expressible as Store.Op and are skipped there.  What a proof "
+    "needs: the lift of the container-local refinement lemmas of C04 (absLoops d cid) to the tree Store.abs at a path (save frames have "
+    "unique parents), the transaction brackets of the API wrappers incl. set_value's add_scalar composition, and the handle tables of "
+    "Store.step; that the premises of C03_store_ops_documented hold at every intermediate state of a parse (only proved for the final state)",
+    "family parse observes the store calls of the REAL parser as six counters (function-like macros around #include \"parser.c\" in "
+    "harness/x_parse.c: calls that return CIF_OK) and compares them with the model's trace on every request; the ORDER of the calls and "
+    "their arguments are not observed (only through the final dump)",
     "memory safety, undefined behaviour and byte decoding of the C are runtime-observed only (families parse and parsebytes).",
 ]
 LEVEL_TEXT = ("Theorems about the executable integrated parser model (every input string, every option record, every callback "
